@@ -22,8 +22,9 @@ class _LoopEnv:
       environment computes for a finished row next to an unfinished batch-mate.
     """
 
-    def __init__(self, env):
+    def __init__(self, env, refresh_final_mask=True):
         self._env = env
+        self._refresh = refresh_final_mask
 
     def __getattr__(self, k):
         return getattr(self._env, k)
@@ -34,7 +35,7 @@ class _LoopEnv:
     def step(self, td):
         self._env.tables.set_bs(max(1, td.batch_size[0]))
         out = self._env.step(td)["next"]
-        if bool(out["done"].all()):
+        if self._refresh and bool(out["done"].all()):
             out = self._env._update_step_state(out)
         return {"next": out}
 
@@ -50,6 +51,7 @@ class FFSP(Adapter):
                            # schedule) + FinalOK (makespan of the final schedule tensor)
     properties = ("C02", "C03", "C04", "C07")
     monitor_props = {"Final": "C07", "Step": "C07"}
+    refresh_final_mask = True   # False: show the raw (stale) mask of an all-done batch, see _LoopEnv
 
     # ---- instances -------------------------------------------------------
     def family(self, tier, seed=0):
@@ -108,7 +110,7 @@ class FFSP(Adapter):
         torch.set_num_threads(1)
         env = FFSPEnv(generator_params={"num_stage": inst["S"], "num_machine": inst["m"],
                                         "num_job": inst["N"], "min_time": 1, "max_time": 3})
-        self._env = _LoopEnv(env)
+        self._env = _LoopEnv(env, self.refresh_final_mask)
         return self._env
 
     def to_td(self, insts):
